@@ -115,6 +115,15 @@ module N =
   | N0 -> N0
   | Npos p -> Npos (Pos.size p)
 
+  (** val coq_lor : coq_N -> coq_N -> coq_N **)
+
+  let coq_lor n m =
+    match n with
+    | N0 -> m
+    | Npos p -> (match m with
+                 | N0 -> n
+                 | Npos q -> Npos (Pos.coq_lor p q))
+
   (** val coq_land : coq_N -> coq_N -> coq_N **)
 
   let coq_land n m =
